@@ -124,6 +124,9 @@ func (lv *c02Live) doer(client *http.Client) c02Doer {
 			return out, nil
 		}
 		req.Header.Set(c02RunHeader, run.id)
+		if opt.upgrade != "" {
+			req.Header.Set("Upgrade", opt.upgrade)
+		}
 		start := time.Now()
 		res, err := client.Do(req)
 		if err != nil {
@@ -372,7 +375,7 @@ func TestVerifC02Server(t *testing.T) {
 		if vk.Seed()%2 == 1 { // odd seeds: the smallest limit that is a limit
 			mb = 1
 		}
-		cfg := Config{Timeout: int64(c02LongTimeout / time.Millisecond), MaxConns: nMax, MaxBytes: mb}
+		cfg := Config{Timeout: int64(c02LongTimeout / time.Millisecond), MaxConns: nMax, MaxBytes: mb, Verbose: true}
 		c := mk("B", cfg)
 		short := time.Duration(30+rr.Intn(40)) * time.Millisecond
 		lv, ok := c02StartLive(m, "sb", cfg, []c02Group{
@@ -425,6 +428,9 @@ func TestVerifC02Server(t *testing.T) {
 		sub("rtlate", func(r *rand.Rand) {
 			rts := lv.e.routes["rtlate"]
 			if !c02LiveLate(c, lv, rts[:3], r, "late:route-timeout", fmt.Sprintf("server with Config.Timeout=60s, route WithTimeout(%v)", short)) {
+				return
+			}
+			if ok, _ := c02ScLate(c, lv.e, fresh, rts[5], c02GenLate(r), c02ReqOpt{upgrade: "h2c"}); !ok && m.ViolCount() > 0 {
 				return
 			}
 			for i := 0; i < 4; i++ { // rts[3:] : 4 x latepanic/late on their own breakers
